@@ -21,16 +21,16 @@ import (
 // endpoints derives from Seed (the crypto/rand tape is re-seeded per case) and the explicit
 // parameters.
 type Case struct {
-	T     string `json:"t"`     // obfs2 | obfs3 | obfs4 | scramblesuit | meek_lite | socks5
-	Role  string `json:"role"`  // client | server
-	Stage string `json:"stage"` // hs | data
-	Gen   string `json:"gen"`   // generator / mutation operator
-	Seed  uint64 `json:"seed"`  // seeds the generator's Rng and the crypto/rand tape of the endpoints
-	A     int    `json:"a"`     // generator parameter (position, length, index ...)
-	B     int    `json:"b"`     // second generator parameter
-	Chunk string `json:"chunk"` // chunker: whole | one | mss | rand | split:<n> | maxread:<n>
-	Cut   string `json:"cut"`   // after the input: "" (peer goes silent) | eof | reset
-	Iat   int    `json:"iat"`   // obfs4 iat-mode
+	T     string `json:"t"`                   // obfs2 | obfs3 | obfs4 | scramblesuit | meek_lite | socks5
+	Role  string `json:"role"`                // client | server
+	Stage string `json:"stage"`               // hs | data
+	Gen   string `json:"gen"`                 // generator / mutation operator
+	Seed  uint64 `json:"seed"`                // seeds the generator's Rng and the crypto/rand tape of the endpoints
+	A     int    `json:"a"`                   // generator parameter (position, length, index ...)
+	B     int    `json:"b"`                   // second generator parameter
+	Chunk string `json:"chunk"`               // chunker: whole | one | mss | rand | split:<n> | maxread:<n>
+	Cut   string `json:"cut"`                 // after the input: "" (peer goes silent) | eof | reset
+	Iat   int    `json:"iat"`                 // obfs4 iat-mode
 	Input string `json:"input_hex,omitempty"` // the bytes actually fed (informational; authoritative when Gen == "raw")
 }
 
@@ -48,13 +48,13 @@ type Ctx struct {
 	Nontrivial bool
 	Outcome    string
 	viol       bool
-	Stuck      bool // an endpoint goroutine of this case is spinning / wedged (still alive)
+	Stuck      bool  // an endpoint goroutine of this case is spinning / wedged (still alive)
 	ValidLen   int   // length of the recorded valid message (for exhaustive cut positions)
 	Boundaries []int // structure offsets of the valid message (for boundary±1 splits and cuts)
 	// knobs
-	SpinCPU    time.Duration // CPU time without progress that counts as spinning
-	WedgeWall  time.Duration // wall time without progress, not blocked in Read, that counts as wedged
-	Quiet      bool
+	SpinCPU     time.Duration // CPU time without progress that counts as spinning
+	WedgeWall   time.Duration // wall time without progress, not blocked in Read, that counts as wedged
+	Quiet       bool
 	ViolateHook func(sig, kind, desc string) // for the fuzz targets: turn a violation into a test failure
 }
 
@@ -181,7 +181,7 @@ func (x *Ctx) Await(c *Conn, call *Call) State {
 				continue
 			}
 			x.Violate("spin", fmt.Sprintf("%s neither returned nor blocked in Read and consumed no input during %.1fs of CPU time (consumed %d of %d fed bytes); log: %s; stacks:\n%s",
-				call.Name, (cpuTime() - cpu0).Seconds(), c.Consumed(), c.Fed(), LogSummary(c.Log()), TransportStacks(4000)))
+				call.Name, (cpuTime()-cpu0).Seconds(), c.Consumed(), c.Fed(), LogSummary(c.Log()), TransportStacks(4000)))
 			x.Stuck = true
 			return Stuck
 		}
